@@ -174,12 +174,17 @@ def location_rules(rep, T, rule="R3", which=("parse_location_entries", "decode_p
                 continue
             sp = Spec(F)
             sp.eager_generators = True
+            # the entry records are built as objects with named fields, whether the constructor is called with keywords or positionally
+            sp.record_classes = {n_ for n_, v_ in c311.ns.items() if isinstance(v_, ClassRef) and not isinstance(v_.lookup("__init__"), FuncRef)}
             itr = iter(list(payload))
             res = sp.call(fobj, [first, itr], {}, None, {})
-            if not (isinstance(res, Op) and res.op == "new"):
+            if isinstance(res, Instance):
+                kw = dict(res.attrs)
+            elif isinstance(res, Op) and res.op == "new":
+                kw = dict(res.args[1])
+            else:
                 ob3(fobj.qualname, cfg, "result", False, expected="an entry record", derived=show(res)[:200])
                 continue
-            kw = dict(res.args[1])
             ob3(fobj.qualname, cfg, "code_delta", kw.get("code_delta") == 2 * ln, expected=2 * ln, derived=show(kw.get("code_delta")))
             ob3(fobj.qualname, cfg, "no_line_flag", kw.get("no_line_flag") is (code == 15), expected=(code == 15), derived=show(kw.get("no_line_flag")))
             got = kw.get("line_delta")
